@@ -190,13 +190,6 @@ def parseUdpCase : List String → Option (IPText × Bytes)
     | "d" :: d :: [] => do pure (ip, ← bytesOfHex d)
     | _ => none
 
-def modelUdpObs (ip : IPText) (data : Bytes) : UObs :=
-  match parseUDPHeader ip data with
-  | .fail e => ⟨.fail e, none⟩
-  | .ok d =>
-    let b2 := buildUDPHeader ip d.host d.port d.payload
-    ⟨.ok d, some (b2, parseUDPHeader ip b2)⟩
-
 def udpObsStr (o : UObs) : String :=
   match o.again with
   | none => uOutStr o.first
@@ -226,9 +219,7 @@ def parseUbpCase : List String → Option BuildCase
       pure ⟨ip, ← bytesOfHex h, ← p.toNat?, ← bytesOfHex pl⟩
     | _ => none
 
-def modelUbp (c : BuildCase) : BObs :=
-  let b := buildUDPHeader c.ip c.host c.port c.payload
-  ⟨b, parseUDPHeader c.ip b⟩
+def modelUbp (c : BuildCase) : BObs := buildObs c.ip c.host c.port c.payload
 
 def parseUbpObs : List String → Option BObs
   | "b" :: b :: ts => do
@@ -251,7 +242,7 @@ def runModel (ts : List String) : String :=
     | none => "bad-case"
   | "udp" :: rest =>
     match parseUdpCase rest with
-    | some (ip, d) => udpObsStr (modelUdpObs ip d)
+    | some (ip, d) => udpObsStr (udpObs ip d)
     | none => "bad-case"
   | "ubp" :: rest =>
     match parseUbpCase rest with
@@ -265,13 +256,13 @@ def runHolds (caseToks obsToks : List String) : String :=
   | "hs" :: rest =>
     match parseHsCase rest, parseHsObs obsToks with
     | some c, some (hs, left) =>
-      boolStr (decide (left ≤ c.stream.length) && holdsHs c.ip c.stream ⟨hs, c.stream.length - left⟩)
+      boolStr (decide (left ≤ c.stream.length) && holdsHs c.ip c.stream (hsObs c.stream hs left))
     | some _, none => "false"
     | none, _ => "bad-case"
   | "ad" :: rest =>
     match parseAdCase rest, parseAdObs obsToks with
     | some (cfg, c), some (ad, left) =>
-      boolStr (decide (left ≤ c.stream.length) && holdsAd c.ip cfg c.stream ⟨ad, c.stream.length - left⟩)
+      boolStr (decide (left ≤ c.stream.length) && holdsAd c.ip cfg c.stream (adObs c.stream ad left))
     | some _, none => "false"
     | none, _ => "bad-case"
   | "udp" :: rest =>
